@@ -26,6 +26,8 @@ FIXED = [
     ("neq_operator", "f = 0\nx = 0\nwhile true:\n    f = DiscreteUniform(0, 2)\n    if f /= 1:\n        x = x + 1\n    end\nend\n", ["x", "f*x"]),
     ("neq_guard", "f = 0\nx = 0\nwhile f /= 2:\n    f = DiscreteUniform(0, 2)\n    x = x + f\nend\n", ["x", "f"]),
     ("constant_probabilistic_init", "b = Bernoulli(1/2)\nx = 0\nwhile true:\n    if b == 1:\n        x = x + 1\n    end\nend\n", ["x", "b*x", "b"]),
+    ("shared_noninteger_condition", "h = 1/2\nb = 0\nx = 0\ny = 0\nwhile true:\n    h = 1/2 {1/2} 3/2\n    b = Bernoulli(1/2)\n    if h < 1 && b == 1:\n        x = x + 1\n        y = y + 2\n    end\nend\n", ["x", "y", "x*y"]),
+    ("init_twice_assigned", "x = 1\nx = x + 1\nwhile true:\n    x = x {1/2} 1\nend\n", ["x", "x**2"]),
     ("decimal_probabilities", "x = 0\ny = 0\nwhile true:\n    x = x + 1 {0.7} x + 2 {0.2} x - 3 {0.1}\n    y = y + x {0.8} y {0.1} 0 {0.1}\nend\n", ["x", "y", "x*y"]),
     ("counter_bounded_by_guard", "c = 0\nx = 0\nwhile c < 3:\n    c = c + 1 {1/2} c\n    x = x + c\nend\n", ["c", "x"]),
     ("dice_sum", "d1 = 1\nd2 = 1\nx = 0\nwhile true:\n    d1 = DiscreteUniform(1, 6)\n    d2 = DiscreteUniform(1, 6)\n    if d1 + d2 == 7:\n        x = x + 1\n    end\nend\n", ["x", "x**2"]),
